@@ -657,6 +657,7 @@ type dropper struct {
 }
 
 func (d *dropper) drop() bool { d.mu.Lock(); defer d.mu.Unlock(); return d.r.Intn(8) == 0 }
+func (d *dropper) intn(n int) int { d.mu.Lock(); defer d.mu.Unlock(); return d.r.Intn(n) }
 
 // serve answers retrieval requests of one session from fetch(bit, section); occasionally it leaves a vector out (the
 // distributor must re-request it). It keeps answering until ctx is cancelled.
@@ -678,6 +679,24 @@ func serve(ctx context.Context, session *bloombits.MatcherSession, fetch func(bi
 						task.Bitsets[i] = fetch(task.Bit, sec)
 					}
 				}
+				// the schedules the pipeline theorem quantifies over: answers out of order, the same section twice, and a
+				// section nobody asked for (must all be harmless)
+				secs, sets := append([]uint64{}, task.Sections...), append([][]byte{}, task.Bitsets...)
+				for i := len(secs) - 1; i > 0; i-- {
+					j := d.intn(i + 1)
+					secs[i], secs[j] = secs[j], secs[i]
+					sets[i], sets[j] = sets[j], sets[i]
+				}
+				if len(secs) > 0 && d.intn(4) == 0 {
+					k := d.intn(len(secs))
+					if len(sets[k]) > 0 {
+						secs, sets = append(secs, secs[k]), append(sets, sets[k])
+					}
+				}
+				if d.intn(8) == 0 {
+					secs, sets = append(secs, 1000+uint64(d.intn(50))), append(sets, []byte{0xff})
+				}
+				task.Sections, task.Bitsets = secs, sets
 				request <- task
 			}
 		}
